@@ -53,6 +53,9 @@ class Check:
         self._known = [f for f in load_findings() if f.get("property") == pid and f.get("status") == "known"]
         self._vacuity = []
         self._replayed_violation_files = []
+        import glob
+        for f in glob.glob(os.path.join(REPLAYS, pid + "-*.json")):
+            os.remove(f)
 
     # -- accounting ---------------------------------------------------------------------
     def add_tlc(self, res, label=None):
